@@ -73,6 +73,10 @@ def run(chk: Check) -> None:
         else:
             ok = len(c.args) == 1 and isinstance(c.args[0], ast.Dict) and [norm(v) for v in c.args[0].values] == [vparam] and [norm(k) for k in c.args[0].keys] == ['port_name']
             chk.ob('DOM-validate-before-store', out, ok, 'the dynamic check sees the emitted value under the emitted name', node=c, kind='validates-the-value')
+    from .c11 import namespace_value_is_mapping
+    namespace_value_is_mapping(chk, 'DOM-validate-before-store')
+    from .common import sentinels_are_unique_objects
+    sentinels_are_unique_objects(chk, 'DOM-validate-before-store')
     typed_dynamic_leaf_checked(chk, 'DOM-validate-before-store')
     # out('a.b.c', v) creates the undeclared sub-namespaces on the fly: they must constrain what goes below them exactly as
     # the dynamic namespace they were created in (type, validator, dynamic-ness), else the value is validated against nothing
